@@ -850,7 +850,11 @@ def compare_check(files: dict[str, str], ver: str, od: dict[str, Any], on: dict[
                 y = sb[twin]
                 which = ",".join(nm_ for nm_, p, q in zip(("line", "column", "end_line", "end_column"), x[:4], y[:4]) if p != q)
                 se = "start" if ("line" in which.split(",") or "column" in which.split(",")) else "end"
-                if se == "end" and (x[2], x[3]) == (x[0], x[1]) and (y[2], y[3]) != (y[0], y[1]):
+                src_lines = split_lines(data)
+                if 1 <= x[0] <= len(src_lines) and any(b > 127 for b in src_lines[x[0] - 1]):
+                    # one root cause whatever the node: columns are UTF-8 bytes under fastparse, characters under nativeparse
+                    nk = "non-ascii-line"
+                elif se == "end" and (x[2], x[3]) == (x[0], x[1]) and (y[2], y[3]) != (y[0], y[1]):
                     # the node had no end position under the default parser (Errors.report clamped it to one column)
                     nk = "no-end-in-default"
                 elif se == "end" and (y[2], y[3]) == (y[0], y[1]) and (x[2], x[3]) != (x[0], x[1]):
